@@ -105,10 +105,16 @@ func cmdCheck(args []string) {
 			timeout = 120
 		}
 	}
-	outDir := filepath.Join(verifDir, "out", prop)
+	// VERIF_SCRATCH_OUT: selftests on a scratch copy of the repository write their
+	// queries, replay files and evidence there, never over the real ones
+	outRoot, evDir := filepath.Join(verifDir, "out"), filepath.Join(verifDir, "evidence")
+	if sdir := os.Getenv("VERIF_SCRATCH_OUT"); sdir != "" {
+		outRoot, evDir = filepath.Join(sdir, "out"), filepath.Join(sdir, "evidence")
+	}
+	outDir := filepath.Join(outRoot, prop)
 	os.RemoveAll(outDir)
 	os.MkdirAll(outDir, 0o755)
-	replayDir := filepath.Join(verifDir, "out", "replay", prop)
+	replayDir := filepath.Join(outRoot, "replay", prop)
 	os.RemoveAll(replayDir)
 	os.MkdirAll(replayDir, 0o755)
 
@@ -226,6 +232,10 @@ func cmdCheck(args []string) {
 			os.Exit(2)
 		}
 		con = e.contracts[pf.Key]
+		if con.Assumed != "" {
+			fmt.Fprintf(os.Stderr, "gocv: props/%s.json lists %s, whose contract is marked assumed (its body is not verified)\n", prop, pf.Key)
+			os.Exit(2)
+		}
 		fn, err := e.FindFunc(con)
 		if err != nil {
 			fails = append(fails, &failure{Name: pf.Key + "#target", Reason: err.Error()})
@@ -240,7 +250,14 @@ func cmdCheck(args []string) {
 		n := 0
 		skipped := map[string]int{}
 		for _, o := range g.obls {
-			if oblSelected(o, pf) {
+			unclaimed := false
+			for _, u := range con.Unclaimed {
+				if o.Kind != "cover" && strings.Contains(o.Name, u[0]) {
+					unclaimed = true
+					notClaimed = appendUnique(notClaimed, fmt.Sprintf("%s: obligations matching %q are not claimed by any property and are assumed past their program point, because %s", g.fnName, u[0], u[1]))
+				}
+			}
+			if !unclaimed && oblSelected(o, pf) {
 				selected[o] = true
 				n++
 			} else {
@@ -499,6 +516,9 @@ func cmdCheck(args []string) {
 					a = "callee contract used, proved by the check of " + strings.Join(provedElsewhere[k], ",") + " (not re-proved in this run): " + k
 				default:
 					a = "ASSUMED callee contract (its body is not verified by any check): " + k
+					if ac, ok := e.contracts[k]; ok && ac.Assumed != "" {
+						a += " - " + ac.Assumed
+					}
 				}
 			}
 			assumptions = appendUnique(assumptions, a)
@@ -542,9 +562,9 @@ func cmdCheck(args []string) {
 		"coverage": cov, "assumptions": assumptions,
 		"wall_s": round3(time.Since(start).Seconds()), "violations": violations,
 	}
-	os.MkdirAll(filepath.Join(verifDir, "evidence"), 0o755)
+	os.MkdirAll(evDir, 0o755)
 	eb, _ := json.MarshalIndent(ev, "", " ")
-	os.WriteFile(filepath.Join(verifDir, "evidence", prop+".json"), eb, 0o644)
+	os.WriteFile(filepath.Join(evDir, prop+".json"), eb, 0o644)
 
 	fmt.Printf("gocv %s %s: %d obligations, %d discharged, %d known findings, %d violations, %.1fs\n", prop, tier, total, discharged, len(knownHit), violations, time.Since(start).Seconds())
 	for _, l := range lines {
